@@ -36,6 +36,7 @@ func TestSim(t *testing.T) {
 		"C38":   {Run: runResp("C38"), Opt: opt},
 		"C34":   {Run: runResp("C34"), Opt: opt},
 		"C33":   {Run: runInflow, Opt: opt},
+		"C34up": {Run: runInflowC34, Opt: opt},
 		"C35":   {Run: runState("C35"), Opt: opt},
 		"C36":   {Run: runState("C36"), Opt: opt},
 		"C25h2": {Run: runC25h2, Opt: opt},
